@@ -119,14 +119,17 @@ package deputynode
 //@ guarded_by Manager.evilDeputies : Manager.edLock
 //@ func (*Manager).PutEvilDeputyNode
 //@   props C19
+//@   opt atomic=m.lock
 //@   requires m != nil && m.evilDeputies != nil && !held(m.edLock)
 //@   ensures !held(m.edLock)
 //@ func (*Manager).IsEvilDeputyNode
 //@   props C19
+//@   opt atomic=m.lock
 //@   requires m != nil && !held(m.edLock)
 //@   ensures !held(m.edLock)
 //@ func (*Manager).SaveSnapshot
 //@   props C19
+//@   opt atomic=m.lock
 //@   requires m != nil && !held(m.lock) && !rheld(m.lock) && forall(i, 0, len(m.termList), m.termList[i] != nil)
 //@   requires cfgOK() && forall(i, 0, len(nodes), nodes[i] != nil && nodes[i].Votes != nil) && len(nodes) <= 1<<20
 //@   ensures !held(m.lock) && !rheld(m.lock)
